@@ -148,6 +148,9 @@ def replay_ops(ops):
         elif o == "dec_json":
             from .. import jsontree
             w.dec_json(json.dumps(tagged_to_plain(op["tree"])))
+        elif o == "to_dot":
+            w.to_dot(op["c"], show_nary=op["nary"], use_labels=op["labels"], show_element_attributes=op["eattrs"],
+                     show_relation_attributes=op["rattrs"])
         elif o == "graph_roundtrip":
             w.graph_roundtrip(op["c"])
         elif o == "provn":
